@@ -193,6 +193,16 @@ func (ss *segmentStack) Stats() *SegmentStackStats {
 }
 
 // ChildCollectionNames returns an array of child collection name strings.
+// statsAll is like Stats() but also counts the segments of all the
+// child collection stacks, recursively.
+func (ss *segmentStack) statsAll() *SegmentStackStats {
+	rv := ss.Stats()
+	for _, childSegStack := range ss.childSegStacks {
+		childSegStack.statsAll().AddTo(rv)
+	}
+	return rv
+}
+
 func (ss *segmentStack) ChildCollectionNames() ([]string, error) {
 	var childCollections = make([]string, len(ss.childSegStacks))
 	idx := 0
